@@ -111,6 +111,13 @@ Supplied ==
    name |-> <<"str", "c19-case">>, strain_final |-> <<"num", "2.5">>, timestep |-> <<"num", "1e9">>,
    directory |-> <<"str", "out">>, anisotropy |-> <<"strs", <<"Voigt", "moduli">>>>,
    paths |-> <<"strs", <<"pathline001.scsv">>>>, log_level |-> <<"str", "DEBUG">>]
+\* a second value class at the edges of the documented ranges (values that published presets declare: no boundary
+\* migration, no grain-boundary sliding, no nucleation; the smallest exponents and grain count).  Which class a
+\* configuration uses is decided by the parity of its set of supplied keys, so every key occurs with both.
+SuppliedEdge == [Supplied EXCEPT !.gbm_mobility = <<"num", "0">>, !.gbs_threshold = <<"num", "0.0">>,
+                                 !.nucleation_efficiency = <<"num", "0.0">>, !.stress_exponent = <<"num", "1.0">>,
+                                 !.deformation_exponent = <<"num", "1.0">>, !.number_of_grains = <<"num", "2">>,
+                                 !.disl_lowtemp_switch = <<"num", "1.0">>]
 ListFields == {"phase_assemblage", "phase_fractions"}
 FabricField == "initial_olivine_fabric"
 ShapeFields == ListFields \cup {FabricField}            \* supplied through the shape / fabric dimensions
@@ -267,6 +274,7 @@ SimulatedNames == [i \in DOMAIN EffAsm |-> PhaseName(EffAsm[i])]
 RawSupplied == <<"strs", cfg.raw>>
 DiagSupplied == <<"strs", cfg.diag>>
 
+Sup == IF Cardinality(cfg.present) % 2 = 0 THEN SuppliedEdge ELSE Supplied
 NoDemand == <<"-", "-", "-">>
 Demand(k) ==
   LET t == k[1]  f == k[2]  has == Has(k) IN
@@ -274,22 +282,22 @@ Demand(k) ==
     IF f = "phase_assemblage" THEN <<"S", "phases-exact", SimulatedNames>>
     ELSE IF f = "phase_fractions" THEN (IF has THEN <<"I", "fractions", cfg.fr>> ELSE <<"S", "py", DeclDefault[f]>>)
     ELSE IF f = FabricField THEN (IF FabClass(EffFab) = "member" THEN <<"S", "fabric", EffFab[2]>> ELSE <<"S", "fabric-any", "-">>)
-    ELSE IF has THEN <<"I", "token", Supplied[f]>> ELSE <<"S", "py", DeclDefault[f]>>
+    ELSE IF has THEN <<"I", "token", Sup[f]>> ELSE <<"S", "py", DeclDefault[f]>>
   ELSE IF t = "output" THEN
     IF f = "raw_output" THEN (IF has THEN <<"I", "phases-exact", RawSupplied[2]>> ELSE <<"S", "phases-between", <<SimulatedNames, PhaseNames>>>>)
     ELSE IF f = "diagnostics" THEN (IF has THEN <<"I", "phases-exact", DiagSupplied[2]>> ELSE <<"S", "phases-between", <<SimulatedNames, PhaseNames>>>>)
-    ELSE IF f = "log_level" THEN (IF has THEN <<"I", "token", Supplied[f]>> ELSE <<"S", "token", DocDefault[f]>>)
-    ELSE IF f = "anisotropy" THEN (IF has THEN <<"I", "token", Supplied[f]>> ELSE <<"I", "token", DocDefault[f]>>)
+    ELSE IF f = "log_level" THEN (IF has THEN <<"I", "token", Sup[f]>> ELSE <<"S", "token", DocDefault[f]>>)
+    ELSE IF f = "anisotropy" THEN (IF has THEN <<"I", "token", Sup[f]>> ELSE <<"I", "token", DocDefault[f]>>)
     ELSE IF f = "paths" THEN (IF ~has THEN <<"S", "noneish", "-">>
                               ELSE IF cfg.mode \in PathModes THEN NoDemand   \* "not sensible with pathline inputs"
-                              ELSE <<"I", "token", Supplied[f]>>)
-    ELSE IF f = "directory" THEN (IF has THEN <<"I", "path", Supplied[f][2]>> ELSE NoDemand)
+                              ELSE <<"I", "token", Sup[f]>>)
+    ELSE IF f = "directory" THEN (IF has THEN <<"I", "path", Sup[f][2]>> ELSE NoDemand)
     ELSE NoDemand
-  ELSE IF has THEN <<"I", "token", Supplied[f]>> ELSE NoDemand       \* name, strain_final, timestep: no documented default
+  ELSE IF has THEN <<"I", "token", Sup[f]>> ELSE NoDemand       \* name, strain_final, timestep: no documented default
 Keys == KeySeq(cfg.mode)
 Demands == [i \in DOMAIN Keys |-> Demand(Keys[i])]
 ReqDemands == LET r == Required[cfg.mode] IN
-  [i \in DOMAIN r |-> IF r[i] = "timestep" THEN <<r[i], "I", "token", Supplied.timestep>>
+  [i \in DOMAIN r |-> IF r[i] = "timestep" THEN <<r[i], "I", "token", Sup.timestep>>
                       ELSE IF r[i] = "paths" THEN <<r[i], "I", "length", 1>>
                       ELSE IF r[i] \in {"locations_final", "locations_initial"} THEN <<r[i], "I", "columns", "-">>
                       ELSE <<r[i], "I", "not-none", "-">>]
@@ -299,7 +307,7 @@ Case == [mode |-> cfg.mode,
          hdr |-> [parameters |-> "parameters" \in cfg.hdr, output |-> "output" \in cfg.hdr],
          asm |-> cfg.asm, fr |-> cfg.fr, fab |-> cfg.fab,
          raw |-> RawSupplied, diag |-> DiagSupplied,
-         fault |-> cfg.fault, edit |-> cfg.edit, over |-> Override(cfg.mode, cfg.edit),
+         fault |-> cfg.fault, edit |-> cfg.edit, over |-> Override(cfg.mode, cfg.edit), sup |-> Sup,
          outcome |-> Outcome, oforce |-> OutcomeForce, broken |-> Broken,
          exp |-> IF "ok" \in Outcome THEN Demands ELSE <<>>,
          req |-> IF "ok" \in Outcome THEN ReqDemands ELSE <<>>, post |-> Post]
